@@ -254,3 +254,36 @@ pub fn w18_portable_clike_tag() {}
 /// enum K { A, B, C }
 /// ```
 pub fn t18_portable_clike_tag() {}
+
+/// C04/C17: the representation of a `#[flat]` type is chosen by the macro; a user `#[repr(align(N))]` (or `packed`) would change the
+/// layout behind the back of the generated `ALIGN` / `SIZE` / offsets (a "portable" type with alignment 4; an unsized type whose
+/// `ALIGN` is 1 while `align_of_val` is 4, i.e. misaligned references out of `from_bytes`). It must not compile.
+/// (The error comes from the macro, so it carries no error code; the compiling twin differs by the attribute only.)
+/// ```compile_fail
+/// use flatty::flat;
+/// #[flat(portable = true)]
+/// #[repr(align(4))]
+/// struct Over { a: u8 }
+/// ```
+pub fn w19_user_repr_on_flat() {}
+/// ```no_run
+/// use flatty::flat;
+/// #[flat(portable = true)]
+/// struct Over { a: u8 }
+/// ```
+pub fn t19_user_repr_on_flat() {}
+
+/// Same for an unsized type.
+/// ```compile_fail
+/// use flatty::{flat, FlatVec};
+/// #[flat(sized = false)]
+/// #[repr(align(4))]
+/// struct OverUnsized { a: u8, b: FlatVec<u8, u8> }
+/// ```
+pub fn w20_user_repr_on_unsized_flat() {}
+/// ```no_run
+/// use flatty::{flat, FlatVec};
+/// #[flat(sized = false)]
+/// struct OverUnsized { a: u8, b: FlatVec<u8, u8> }
+/// ```
+pub fn t20_user_repr_on_unsized_flat() {}
